@@ -15,12 +15,16 @@ void fact_do(const vf_api *P, const vf_mat *A, const superlu_options_t *opt, con
     sp_preorder(&R->opt, &R->A, R->perm_c, R->etree, &R->AC); R->have_AC = 1;
     StatInit(&R->stat); R->stat_on = 1;
     R->info = -999; R->user_work = lwork > 0;
+    long gw0 = vf_growth_ws(), gs0 = vf_growth_sys();
     feclearexcept(FE_ALL_EXCEPT);
     if (ilu) P->gsitrf(&R->opt, &R->AC, sp_ienv(2), sp_ienv(1), R->etree, work, lwork, R->perm_c, R->perm_r, &R->L, &R->U, &R->Glu, &R->stat, &R->info);
     else P->gstrf(&R->opt, &R->AC, sp_ienv(2), sp_ienv(1), R->etree, work, lwork, R->perm_c, R->perm_r, &R->L, &R->U, &R->Glu, &R->stat, &R->info);
     R->fp_inexact = fetestexcept(FE_INEXACT) != 0;
     int mn = A->m < A->n ? A->m : A->n;
     R->have_LU = (R->info >= 0 && R->info <= mn && lwork != -1);
+    /* the four initial requests of ?LUMemInit are not growths in flight */
+    R->growths = lwork > 0 ? vf_growth_ws() - gw0 : lwork == 0 ? vf_growth_sys() - gs0 - 4 : -1;
+    if (R->growths < 0 || !R->have_LU) R->growths = -1;
 }
 /* refactorization through the factor routine itself: same pattern, new values, Fact = SamePattern_SameRowPerm (ordering, row pivots and
    storage of the factorization held in R are reused; perm_r is an input). Documented for ?gstrf for square and tall matrices alike.
@@ -38,11 +42,15 @@ void fact_redo(const vf_api *P, const vf_mat *A2, fact_t mode, void *work, int_t
     R->opt.Fact = mode;
     sp_preorder(&R->opt, &R->A, R->perm_c, R->etree, &R->AC); R->have_AC = 1;
     R->info = -999;
+    long gw0 = vf_growth_ws(), gs0 = vf_growth_sys();
     feclearexcept(FE_ALL_EXCEPT);
     P->gstrf(&R->opt, &R->AC, sp_ienv(2), sp_ienv(1), R->etree, work, lwork, R->perm_c, R->perm_r, &R->L, &R->U, &R->Glu, &R->stat, &R->info);
     R->fp_inexact = fetestexcept(FE_INEXACT) != 0;
     int mn = R->m < R->n ? R->m : R->n;
     R->have_LU = (R->info >= 0 && R->info <= mn);
+    long init = mode == SamePattern_SameRowPerm ? 0 : 4;     /* storage of the earlier factorization is reused: no initial requests */
+    R->growths = lwork > 0 ? vf_growth_ws() - gw0 : vf_growth_sys() - gs0 - init;
+    if (R->growths < 0 || !R->have_LU) R->growths = -1;
 }
 void fact_free(fact_run *R)
 {
